@@ -176,6 +176,10 @@ def _binom_pmf(p, k):
     n, q = p['n'], p['p']
     if k < 0 or k > n:
         return 0.0
+    if q == 0.0:
+        return 1.0 if k == 0 else 0.0
+    if q == 1.0:
+        return 1.0 if k == n else 0.0
     return math.exp(math.lgamma(n + 1) - math.lgamma(k + 1) - math.lgamma(n - k + 1) + k * math.log(q) + (n - k) * math.log(1 - q))
 
 
@@ -203,11 +207,12 @@ TABLE = {
         pdf=lambda p, x: 1 / (p['upper'] - p['lower']) if p['lower'] <= x <= p['upper'] else 0.0,
         mean=lambda p: (p['lower'] + p['upper']) / 2, var=lambda p: (p['upper'] - p['lower']) ** 2 / 12),
     'pareto::Pareto': dict(
-        grid=[{'alpha': 2.7, 'minval': 1.3}, {'alpha': 4.2, 'minval': 0.6}],
+        grid=[{'alpha': 2.7, 'minval': 1.3}, {'alpha': 4.2, 'minval': 0.6}, {'alpha': 1.5, 'minval': 2.0}, {'alpha': 2.0, 'minval': 1.0}],
         xs=lambda p: [p['minval'] * 1.1, p['minval'] * 2.3, p['minval'] * 7.9, p['minval'] * 0.5, -1.0, p['minval'] * 1e6],
         pdf=lambda p, x: p['alpha'] * p['minval'] ** p['alpha'] / x ** (p['alpha'] + 1) if x >= p['minval'] else 0.0,
-        mean=lambda p: p['alpha'] * p['minval'] / (p['alpha'] - 1),
-        var=lambda p: p['minval'] ** 2 * p['alpha'] / ((p['alpha'] - 1) ** 2 * (p['alpha'] - 2))),
+        # the property constrains a moment only where it is finite: None = no constraint at this parameter point
+        mean=lambda p: p['alpha'] * p['minval'] / (p['alpha'] - 1) if p['alpha'] > 1 else None,
+        var=lambda p: p['minval'] ** 2 * p['alpha'] / ((p['alpha'] - 1) ** 2 * (p['alpha'] - 2)) if p['alpha'] > 2 else None),
     'gumbel::Gumbel': dict(
         grid=[{'mu': 0.4, 'beta': 1.6}, {'mu': -1.2, 'beta': 0.7}, {'mu': 1e3, 'beta': 1.0}],
         xs=lambda p: [p['mu'] - 0.9 * p['beta'], p['mu'] + 0.3 * p['beta'], p['mu'] + 2.4 * p['beta'], p['mu'] - 1e3 * p['beta'], p['mu'] + 900 * p['beta']],
@@ -225,17 +230,17 @@ TABLE = {
         pdf=lambda p, x: x ** (p['dof'] / 2 - 1) * fexp(-x / 2) / (2 ** (p['dof'] / 2) * math.gamma(p['dof'] / 2)) if x >= 0 else 0.0,
         mean=lambda p: float(p['dof']), var=lambda p: 2.0 * p['dof']),
     't::T': dict(
-        grid=[{'dof': 3.0}, {'dof': 7.5}, {'dof': 2.6}],
+        grid=[{'dof': 3.0}, {'dof': 7.5}, {'dof': 2.6}, {'dof': 1.5}],
         xs=lambda p: [-1.7, 0.0, 0.6, 2.9, -1e6, 3e4],
         pdf=lambda p, x: math.gamma((p['dof'] + 1) / 2) / (math.sqrt(p['dof'] * math.pi) * math.gamma(p['dof'] / 2)) * (1 + x * x / p['dof']) ** (-(p['dof'] + 1) / 2),
-        mean=lambda p: 0.0, var=lambda p: p['dof'] / (p['dof'] - 2)),
+        mean=lambda p: 0.0 if p['dof'] > 1 else None, var=lambda p: p['dof'] / (p['dof'] - 2) if p['dof'] > 2 else None),
     'poisson::Poisson': dict(
         grid=[{'lambda': 0.8}, {'lambda': 6.3}, {'lambda': 31.5}, {'lambda': 200.0}, {'lambda': 1000.0}],
         xs=lambda p: [0, 1, 5, 23, 40, -1, -7] if p['lambda'] < 100 else [int(p['lambda']) - 30, int(p['lambda']), int(p['lambda']) + 45, -2], discrete=True,
         pdf=lambda p, k: 0.0 if k < 0 else fexp(k * math.log(p['lambda']) - p['lambda'] - math.lgamma(k + 1)),
         mean=lambda p: p['lambda'], var=lambda p: p['lambda']),
     'binomial::Binomial': dict(
-        grid=[{'n': 9, 'p': 0.37}, {'n': 40, 'p': 0.81}, {'n': 70, 'p': 0.5}, {'n': 1000, 'p': 0.31}],
+        grid=[{'n': 9, 'p': 0.37}, {'n': 40, 'p': 0.81}, {'n': 70, 'p': 0.5}, {'n': 1000, 'p': 0.31}, {'n': 7, 'p': 1.0}, {'n': 7, 'p': 0.0}],
         xs=lambda p: [0, 1, 4, p['n'], -1, p['n'] + 1, p['n'] + 30] if p['n'] <= 40 else [int(p['n'] * p['p']) - 7, int(p['n'] * p['p']), int(p['n'] * p['p']) + 11, -3, p['n'] + 2], discrete=True,
         pdf=_binom_pmf,
         mean=lambda p: p['n'] * p['p'], var=lambda p: p['n'] * p['p'] * (1 - p['p'])),
@@ -265,6 +270,8 @@ def compare(alts, ref, points, trivial_ok=True):
             want = ref(pname, x) if x is not None else ref(pname)
         except Exception as e:
             return 'undecided', 'reference not evaluable: %s' % e
+        if want is None:
+            continue              # the property does not constrain this quantity here (an infinite moment)
         vals = []
         uneval = None
         for a in alts:
